@@ -28,7 +28,7 @@ RULE = ("one run = one hypergraph on N <= 7 nodes and one model configuration (K
         "executed for n_iter = 1..K under the same draw stream and fixed-parameter identity, finiteness, symmetry and (u supplied, w_prior=0) "
         "exact-likelihood ascent are checked on every prefix; closed forms are compared with brute-force sums on every state reached.  "
         "Non-trivial: >= 2 prefixes with a free parameter that changed; distinct = digests of the parameter trajectories.")
-TIERS = {"quick": {"runs": 1200, "wall_cap": 240, "det_seeds": 8, "min_tests": 200},
+TIERS = {"quick": {"runs": 6000, "wall_cap": 240, "det_seeds": 8, "min_tests": 200},
          "thorough": {"runs": 30000, "wall_cap": 3000, "det_seeds": 30, "min_tests": 600}}
 
 
@@ -229,3 +229,7 @@ def simplify(case):
             del c2["spec"]["edges"][i]
             del c2["weights"][i]
             yield c2
+
+
+def sim_time(stats):
+    return {"unit": "EM prefixes executed (fit calls with n_iter = 1..K)", "value": stats.get("c15", {}).get("prefixes", 0)}
